@@ -84,16 +84,21 @@ def top : ACell :=
   { name := ⟨S' "top", some (S' "Top Cell")⟩, view := S' "netlist",
     ports := [⟨⟨S' "a", none⟩, .inp, some 3⟩, ⟨⟨S' "y", none⟩, .out, none⟩],
     insts := [⟨⟨S' "u1", none⟩, 0, 0, S' "NETLIST", S' "buf", S' "PRIMS",
-                [⟨⟨S' "INIT", none⟩, .str (S' "8'h00")⟩, ⟨⟨S' "w", some (S' "W x")⟩, .int (-3)⟩]⟩,
-              ⟨⟨S' "u2", some (S' "u[2]")⟩, 0, 0, S' "netlist", S' "Buf", S' "prims", [⟨⟨S' "keep", none⟩, .bool true⟩]⟩],
+                [⟨⟨S' "INIT", none⟩, .str (S' "8'h00")⟩, ⟨⟨S' "w", some (S' "W x")⟩, .int (-3)⟩], false⟩,
+              ⟨⟨S' "u2", some (S' "u[2]")⟩, 0, 0, S' "netlist", S' "Buf", S' "prims", [⟨⟨S' "keep", none⟩, .bool true⟩], false⟩],
     nets := [⟨.bit (S' "n") (S' "n") 3, [.port 0 (some 2) (S' "A"), .inst 0 2 (some 1) (S' "D") (S' "U1")]⟩,
              ⟨.scalar ⟨S' "s", some (S' "s net")⟩, [.port 1 none (S' "Y"), .inst 1 1 none (S' "O_2_") (S' "U2")]⟩,
              ⟨.bit (S' "n") (S' "n") 1, [.port 0 (some 0) (S' "a"), .inst 0 0 none (S' "I") (S' "u1")]⟩,
              ⟨.bit (S' "m") (S' "m") 0, [.inst 1 0 none (S' "i") (S' "u2")]⟩] }
 
+/-- a second cell of library `work`: instantiates `top` of the same library without `(libraryRef …)` -/
+def top2 : ACell :=
+  { name := ⟨S' "wrap", none⟩, view := S' "netlist",
+    insts := [⟨⟨S' "t", none⟩, 1, 0, S' "netlist", S' "TOP", S' "work", [], true⟩] }
+
 def exD : ADesign :=
   { name := ⟨S' "demo", none⟩,
-    libs := [⟨⟨S' "prims", none⟩, [leaf]⟩, ⟨⟨S' "work", some (S' "work lib")⟩, [top]⟩],
+    libs := [⟨⟨S' "prims", none⟩, [leaf], true⟩, ⟨⟨S' "work", some (S' "work lib")⟩, [top, top2], false⟩],
     top := ⟨S' "top_i", some (S' "the top")⟩, topLi := 1, topDi := 0, topCellSp := S' "TOP", topLibSp := S' "Work" }
 
 theorem exD_wf : exD.wf = true := by decide +kernel
@@ -103,7 +108,7 @@ example : ∃ n, readEdif (renderText exD) = .ok n ∧ view05 n = denote exD := 
 
 /-- what it denotes for bus `n`: bits 1 and 3 declared (3 first), so one array cable based at 1 of
     three wires, the middle one unconnected; it is the first cable of the cell -/
-example : ((denote exD).libs.getD 1 ⟨none, none, []⟩).cells.head?.map (fun c => c.cables.head?) =
+example : ((denote exD).libs.getD 1 ⟨none, none, [], false⟩).cells.head?.map (fun c => c.cables.head?) =
     some (some ⟨some (S' "n"), some (S' "n"), true, 1,
       [[.port 0 0, .inst 0 0 0], [], [.port 0 2, .inst 0 2 1]]⟩) := by rfl
 
